@@ -54,7 +54,20 @@ Proof. exact (text_collect_apply sel toks []). Qed.
 
 Lemma env_tok_eq W t : text_tok (env_sel W) t = expand_env_tok W t.
 Proof.
-  unfold text_tok, env_sel, expand_env_tok. destruct (fst t); try reflexivity; destruct (env_in_token (snd t)); reflexivity.
+  unfold text_tok, env_sel, expand_env_tok.
+  destruct (fst t); try reflexivity; destruct (env_in_tagged_token (snd t) _); reflexivity.
+Qed.
+
+(** the gate of an unquoted token is the old gate; telling it the token is double-quoted only lets more through *)
+Lemma tagged_gate_unquoted t : env_in_tagged_token t false = env_in_token t.
+Proof. reflexivity. Qed.
+Lemma tagged_gate_mono t : env_in_token t = true -> env_in_tagged_token t true = true.
+Proof.
+  unfold env_in_token, env_in_tagged_token.
+  destruct (rx_search rx_env_special t); [reflexivity|].
+  destruct (negb (rx_search rx_env_name t)); [intros H; exact H|].
+  destruct (rx_search rx_env_sub1 t || rx_search rx_env_sub2 t || rx_search rx_env_sub3 t); [intros H; exact H|].
+  reflexivity.
 Qed.
 Lemma home_tok_eq W t : text_tok (home_sel W) t = expand_home_tok W t.
 Proof.
@@ -85,7 +98,7 @@ Lemma expand_env_app W a b : expand_env W (a ++ b) = expand_env W a ++ expand_en
 Proof. rewrite !expand_env_map. apply map_app. Qed.
 
 Lemma expand_env_tok_tag W t : fst (expand_env_tok W t) = fst t.
-Proof. unfold expand_env_tok. destruct (fst t) eqn:E; try (destruct (env_in_token (snd t))); cbn; auto. Qed.
+Proof. unfold expand_env_tok. destruct (fst t) eqn:E; try (destruct (env_in_tagged_token (snd t) _)); cbn; auto. Qed.
 
 Lemma expand_env_keeps_sq W pre s post :
   expand_env W (pre ++ (TSq, s) :: post) = expand_env W pre ++ (TSq, s) :: expand_env W post.
